@@ -3,7 +3,7 @@ import Qryn.Read.JsonPathSyntax
 import Driver.C07
 import Std.Data.HashMap
 /-! Line protocol for C09. Ops:
-    `c09run <mode> <ctx> <plan> <regexes> <templates> <json> <logfmt> <batches>`  mode = model | spec
+    `c09run <mode> <ctx: from to limit flushAt maxSeries orderAsc> <plan> <regexes> <templates> <json> <logfmt> <batches>`  mode = model | spec
     `c09bp <tags> <absent>`
     The abstract functions of the model are instantiated here: float64 = Lean `Float` with a decimal parser,
     RE2 = a small backtracking matcher over the AST the harness got from regexp/syntax, templates = the token
@@ -400,8 +400,8 @@ def tag? : String → Option StageTag
   | "drop" => some .drop | _ => none
 
 def handle : List String → Option String
-  | ["c09run", mode, fromNs, toNs, limit, flushAt, maxSeries, st, agg, aggBy, aggCmp, vec, res, tps, js, lf, bs] => do
-    let c : Read.Ctx := ⟨← fromNs.toInt?, ← toNs.toInt?, ← limit.toInt?, ← flushAt.toNat?, ← maxSeries.toNat?⟩
+  | ["c09run", mode, fromNs, toNs, limit, flushAt, maxSeries, asc, st, agg, aggBy, aggCmp, vec, res, tps, js, lf, bs] => do
+    let c : Read.Ctx := ⟨← fromNs.toInt?, ← toNs.toInt?, ← limit.toInt?, ← flushAt.toNat?, ← maxSeries.toNat?, asc = "1"⟩
     let p ← plan? st agg aggBy aggCmp vec
     let t : Tables := ⟨← table? (fun s => do
         let toks := s.splitOn ","
